@@ -43,3 +43,61 @@ lemma size-check-accepts-only-canonical
   call err = scu.Unmarshal(obj, buff)
   concl canonical: err == nil ==> str(buff) == canon(obj)
 @*/
+
+// [C24]
+/*@
+// ---- C24: the marshalizer used for signing (TxJsonMarshalizer) ------------------------------------------------------------
+// Library model (encoding/json, bytes.Buffer): trusted. The spec functions jsonFtx, j*, validUTF8 are those of
+// data/transaction/contracts_verif.go: jsonFtx is the JSON text of a FrontendTransaction, the j* functions read one field back.
+
+spec fn dto(v interface{}) *transaction.FrontendTransaction = payload(v, ptr_transaction.FrontendTransaction)
+spec fn isDto(v interface{}) bool = typeIs(v, ptr_transaction.FrontendTransaction)
+spec fn dtoText(f *transaction.FrontendTransaction) string = jsonFtx(f.Nonce, f.Value, f.Receiver, f.Sender, str(f.SenderUsername), str(f.ReceiverUsername), f.GasPrice, f.GasLimit, str(f.Data), f.Signature, f.ChainID, f.Version, f.Options)
+spec fn sink(enc *json.Encoder) *bytes.Buffer = payload(enc.w, ptr_bytes.Buffer)
+// the unread part of a buffer
+spec fn unread(b *bytes.Buffer) []byte = b.buf[b.off:]
+
+extern func json.NewEncoder(w io.Writer) (r *json.Encoder)
+  assigns  nothing
+  ensures  r != nil && fresh(r) && r.w == w && r.escapeHTML
+
+extern func (enc *json.Encoder) SetEscapeHTML(on bool)
+  assigns  enc.escapeHTML
+  ensures  enc.escapeHTML == on
+
+// Encode appends the JSON text of v and a line feed to the writer. Stated for an empty *bytes.Buffer as writer, HTML
+// escaping off and v a *FrontendTransaction: the text is jsonFtx of the field values, and every field can be read back from
+// it (string fields when they are valid UTF-8: invalid bytes are replaced by U+FFFD) - that is, JSON encoding is injective.
+extern func (enc *json.Encoder) Encode(v interface{}) (err error)
+  assigns  fields(sink(enc))
+  ensures  ends-with-line-feed: err == nil && typeIs(enc.w, ptr_bytes.Buffer) ==> len(unread(sink(enc))) >= 1 && unread(sink(enc))[len(unread(sink(enc)))-1] == 10
+  ensures  json-of-dto: err == nil && typeIs(enc.w, ptr_bytes.Buffer) && old(len(unread(sink(enc)))) == 0 && !enc.escapeHTML && isDto(v) ==> str(unread(sink(enc))[:len(unread(sink(enc)))-1]) == dtoText(dto(v))
+  ensures  numbers-read-back: err == nil && typeIs(enc.w, ptr_bytes.Buffer) && old(len(unread(sink(enc)))) == 0 && !enc.escapeHTML && isDto(v) ==> jNonce(dtoText(dto(v))) == dto(v).Nonce && jGasPrice(dtoText(dto(v))) == dto(v).GasPrice && jGasLimit(dtoText(dto(v))) == dto(v).GasLimit && jVersion(dtoText(dto(v))) == dto(v).Version && jOptions(dtoText(dto(v))) == dto(v).Options
+  ensures  byte-fields-read-back: err == nil && isDto(v) ==> jSndUser(dtoText(dto(v))) == str(dto(v).SenderUsername) && jRcvUser(dtoText(dto(v))) == str(dto(v).ReceiverUsername) && jData(dtoText(dto(v))) == str(dto(v).Data)
+  ensures  value-read-back: err == nil && isDto(v) && validUTF8(dto(v).Value) ==> jValue(dtoText(dto(v))) == dto(v).Value
+  ensures  receiver-read-back: err == nil && isDto(v) && validUTF8(dto(v).Receiver) ==> jReceiver(dtoText(dto(v))) == dto(v).Receiver
+  ensures  sender-read-back: err == nil && isDto(v) && validUTF8(dto(v).Sender) ==> jSender(dtoText(dto(v))) == dto(v).Sender
+  ensures  signature-read-back: err == nil && isDto(v) && (validUTF8(dto(v).Signature) || dto(v).Signature == "") ==> jSig(dtoText(dto(v))) == dto(v).Signature
+  ensures  chain-id-read-back: err == nil && isDto(v) && validUTF8(dto(v).ChainID) ==> jChainID(dtoText(dto(v))) == dto(v).ChainID
+
+extern func (b *bytes.Buffer) Bytes() (r []byte)
+  assigns  nothing
+  ensures  r == unread(b)
+
+func trimLineFeed(bytes []byte) (r []byte)
+  requires not-empty: len(bytes) >= 1
+  ensures  line-feed-cut: bytes[len(bytes)-1] == 10 ==> r == bytes[:len(bytes)-1]
+  ensures  otherwise-unchanged: bytes[len(bytes)-1] != 10 ==> r == bytes
+  assigns  nothing
+
+func (t *TxJsonMarshalizer) Marshal(obj interface{}) (r []byte, err error)
+  ensures  json-of-dto: err == nil && isDto(obj) ==> str(r) == dtoText(dto(obj))
+  ensures  numbers-read-back: err == nil && isDto(obj) ==> jNonce(str(r)) == dto(obj).Nonce && jGasPrice(str(r)) == dto(obj).GasPrice && jGasLimit(str(r)) == dto(obj).GasLimit && jVersion(str(r)) == dto(obj).Version && jOptions(str(r)) == dto(obj).Options
+  ensures  byte-fields-read-back: err == nil && isDto(obj) ==> jSndUser(str(r)) == str(dto(obj).SenderUsername) && jRcvUser(str(r)) == str(dto(obj).ReceiverUsername) && jData(str(r)) == str(dto(obj).Data)
+  ensures  value-read-back: err == nil && isDto(obj) && validUTF8(dto(obj).Value) ==> jValue(str(r)) == dto(obj).Value
+  ensures  receiver-read-back: err == nil && isDto(obj) && validUTF8(dto(obj).Receiver) ==> jReceiver(str(r)) == dto(obj).Receiver
+  ensures  sender-read-back: err == nil && isDto(obj) && validUTF8(dto(obj).Sender) ==> jSender(str(r)) == dto(obj).Sender
+  ensures  signature-read-back: err == nil && isDto(obj) && (validUTF8(dto(obj).Signature) || dto(obj).Signature == "") ==> jSig(str(r)) == dto(obj).Signature
+  ensures  chain-id-read-back: err == nil && isDto(obj) && validUTF8(dto(obj).ChainID) ==> jChainID(str(r)) == dto(obj).ChainID
+  assigns  nothing
+@*/
